@@ -3,8 +3,11 @@
 
   1. TLC checks the design (spec/KeepAlive.tla: ticker loop + clock + peer outcome script) exhaustively:
      Accuracy / Completeness / Timing / SilentStop / NoLeftovers for every outcome script up to length 6,
-     every threshold, both ways the owner may close the session; reachability witnesses guard against vacuity.
-  2. TLC exports every case (script, threshold, closing mode) with the code-shaped expectation.
+     every threshold, every way the owner may close the session and (scripts up to length 4) every instant at
+     which the peer completes the handshake (keep-alive starts at Connect, before it) and every fate of the
+     context given to Connect (kept / cancelled after tick k); reachability witnesses guard against vacuity.
+  2. TLC exports every case (script, threshold, closing mode, handshake slot, Connect-context slot) with the
+     code-shaped expectation.
   3. harness/mcp/c13_keepalive_test.go runs the cases on the real code under testing/synctest at three levels
      (startKeepalive with a scripted pinger; real ServerSession; real legacy-protocol ClientSession over a scripted
      Connection) and records what the peer and the owner observe.
@@ -15,7 +18,9 @@ import json, os, random, threading
 import vlib
 
 PID = "C13"
-WITNESSES = ("NeverClosed", "NeverStopped", "NeverTolerated", "NeverReset", "NeverLateClose", "NeverDrained")
+WITNESSES = ("NeverClosed", "NeverStopped", "NeverTolerated", "NeverReset", "NeverLateClose", "NeverDrained",
+             "NeverPingBeforeHandshake", "NeverClosedBeforeHandshake", "NeverAnsweredBeforeHandshake",
+             "NeverPingAfterCtxCancel", "NeverClosedAfterCtxCancel")
 LEVELS = ("func", "server", "client")
 TLC_WORKERS = 4
 
@@ -24,10 +29,26 @@ def consumed(c):
     """The part of the script the keep-alive loop can consume, plus what makes two cases the same run."""
     n = min(c["nping"], len(c["pattern"]))
     pre = "".join(c["pattern"][:n])
+    env = (c["hs"], c["cc"])
     if c["closeAt"] >= 0:
-        return (pre, c["T"], "-", 0)
+        return (pre, c["T"], "-", 0, env)
     # open runs differ by when the owner closes (script length) and how
-    return (pre, c["T"], c["end"] + str(c["drain"]), len(c["pattern"]))
+    return (pre, c["T"], c["end"] + str(c["drain"]), len(c["pattern"]), env)
+
+
+def levels_of(c):
+    """Where a case can be run: the handshake slot is the peer's doing on the side that waits for initialize
+    (a ServerSession); the context given to Connect exists on real sessions; a Close that waits for a
+    request handler only exists on real sessions."""
+    if c["hs"] != 0:
+        return ("server",)
+    if c["cc"] >= 0 or c["end"] == "drain":
+        return ("server", "client")
+    return LEVELS
+
+
+def env_of(e):
+    return ("" if e["hs"] == 0 else ":hs=%d" % e["hs"]) + ("" if e["cc"] < 0 else ":cc=%d" % e["cc"])
 
 
 def got_of(e):
@@ -43,9 +64,51 @@ def sig_of(inv, e):
     s = "%s:%s:pattern=%s:T=%d:%s" % (inv, e["level"], pre, e["T"], got_of(e))
     if e["closed"] < 0:
         s += ":end=" + e["end"] + (str(e["drain"]) if e["end"] == "drain" else "")
+    s += env_of(e)
     if inv == "NoLeftovers":
         s += ":left=%d:exit=%s" % (e["left"], "clean" if e["exit"] == "clean" else "stuck")
     return s
+
+
+def reap(part):
+    """Kill (by PID) the test binaries of THIS run that outlived their `go test`: they are the processes whose
+    environment names our private observation file."""
+    import signal
+    mark = ("VERIF_OUT=" + part).encode()
+    killed = []
+    for pid in os.listdir("/proc"):
+        if not pid.isdigit() or int(pid) == os.getpid():
+            continue
+        try:
+            with open("/proc/%s/environ" % pid, "rb") as fh:
+                if mark not in fh.read().split(b"\0"):
+                    continue
+            os.kill(int(pid), signal.SIGKILL)
+            killed.append(int(pid))
+        except (OSError, IOError):
+            pass
+    return killed
+
+
+def run_harness(out, cases_path, part, sd, tier):
+    """One seed of the harness. A test process that gets stuck (watchdog, or the go test timeout when even the
+    watchdog cannot run) is an infrastructure fault, not an observation: its output is kept, leftovers are killed,
+    and the process is started again. Returns (rc, output)."""
+    stuck = []
+    for attempt in (1, 2, 3):
+        rc, gout, wall = vlib.go_test("mcp", "^TestVerif_C13$", ["mcp/c13_keepalive_test.go"],
+                                      env={"VERIF_IN": cases_path, "VERIF_OUT": part, "VERIF_SEED": sd},
+                                      timeout=180 if tier == "quick" else 900)
+        wd = [l for l in gout.splitlines() if l.startswith("C13-WATCHDOG")]
+        if not wd and rc != 124 and "Test killed" not in gout:
+            return rc, gout, stuck
+        reap(part)
+        log = os.path.join(out, "stuck-seed%d-attempt%d.log" % (sd, attempt))
+        with open(log, "w") as fh:
+            fh.write(gout)
+        stuck.append((wd[0] if wd else "go test timed out after %.0f s (watchdog silent)" % wall) + " [" + log + "]")
+        print("C13: harness process got stuck (attempt %d): %s" % (attempt, stuck[-1]), flush=True)
+    raise vlib.MachineryError("the harness got stuck in every attempt (no verdict):\n  " + "\n  ".join(stuck))
 
 
 def run(tier, seed, replay):
@@ -60,11 +123,21 @@ def run(tier, seed, replay):
         "'no timer left behind' is observed as: no ping, no goroutine and a clean bubble exit during 24 virtual hours; "
         "an unreferenced, never-firing-into-anything ticker cannot be observed from Go",
         "ping attempts are observed with a sending middleware (session levels), so pings refused locally by a closing connection count",
+        "late handshake (server sessions): the peer's initialize arrives 3/8 of an interval after tick j (or never); what it does "
+        "with the pings it receives before that is the script's business; Connect context (server and client sessions): cancelled 7/8 "
+        "of an interval after tick k or kept until the scenario is over; combined with scripts of length <= 4",
+        "every wait of the harness ends at an instant fixed by the script; a real-time watchdog outside the bubbles shortens the quiet "
+        "period of a scenario after 3 s; a scenario that does not return within 12 s of real time ends the test process (SIGQUIT dump "
+        "kept in out/C13); the process is then started again (3 attempts; go1.25.0's synctest occasionally leaves a bubble spinning "
+        "inside the runtime, independently of the code under test) and the run ends with exit 2, naming the scenario, if every attempt got stuck",
         "owner-Close-during-drain: the peer's request (tools/call on servers, sampling/createMessage on clients) runs a handler that "
         "ignores its context and is released 1 or 2 intervals after Close began",
         "TLC exhaustive results are for scripts of length <= 6 and the stated thresholds",
     ]
     out = vlib.outdir(PID)
+    for f in os.listdir(out):
+        if f.startswith("stuck-seed"):
+            os.remove(os.path.join(out, f))
 
     # 1. design check (thorough: more thresholds and answer delays; quick: done by the generation run below,
     #    which checks the same invariants and properties on the configuration it exports)
@@ -81,10 +154,13 @@ def run(tier, seed, replay):
         base = open(os.path.join(vlib.SPEC, "KeepAlive_wit.cfg")).read()
         wres = {}
 
+        slots = threading.Semaphore(TLC_WORKERS)
+
         def wit(w):
-            wd = vlib.scratch("tlc-")
-            wres[w] = vlib.run_tlc("KeepAliveMC", "wit.cfg", workdir=wd, extra_files={"wit.cfg": base + "INVARIANT %s\n" % w},
-                                   workers=1, timeout=300, heap_gb=1)
+            with slots:
+                wd = vlib.scratch("c13wit-")
+                wres[w] = vlib.run_tlc("KeepAliveMC", "wit.cfg", workdir=wd, extra_files={"wit.cfg": base + "INVARIANT %s\n" % w},
+                                       workers=1, timeout=300, heap_gb=1)
         ths = [threading.Thread(target=wit, args=(w,)) for w in WITNESSES]
         [t.start() for t in ths]
         [t.join() for t in ths]
@@ -99,13 +175,22 @@ def run(tier, seed, replay):
     if not gres.ok:
         raise vlib.MachineryError("the KeepAlive model violates %s: design check failed" % gres.violation)
     cases = [p for p in gres.printed if isinstance(p, dict) and "pattern" in p and "closeAt" in p]
-    cases.sort(key=lambda c: (len(c["pattern"]), c["pattern"], c["T"], c["end"], c["drain"]))
+    cases.sort(key=lambda c: (len(c["pattern"]), c["pattern"], c["T"], c["end"], c["drain"], c["hs"] != 0, c["cc"] >= 0, c["hs"], c["cc"]))
+    # the model's statement about the two environment dimensions: they do not change what the loop does
+    base = {(tuple(c["pattern"]), c["T"], c["end"], c["drain"]): c for c in cases if c["hs"] == 0 and c["cc"] < 0}
+    for c in cases:
+        b = base.get((tuple(c["pattern"]), c["T"], c["end"], c["drain"]))
+        if b is None or any(b[f] != c[f] for f in ("nping", "closeAt", "userAt", "final", "ticks")):
+            raise vlib.MachineryError("KeepAlive.tla: handshake slot %d / Connect-context slot %d changes the run of %s" % (
+                c["hs"], c["cc"], json.dumps(b)))
     for i, c in enumerate(cases):
         c["id"] = i
     ncases = len(cases)
     if ncases < 1000:
         raise vlib.MachineryError("TLC exported only %d cases" % ncases)
     v.cov["cases_exported"] = ncases
+    v.cov["cases_late_or_no_handshake"] = sum(1 for c in cases if c["hs"] != 0)
+    v.cov["cases_connect_context_cancelled"] = sum(1 for c in cases if c["cc"] >= 0)
 
     # 3. which levels run which cases
     rng = random.Random(seed)
@@ -114,7 +199,7 @@ def run(tier, seed, replay):
         rep = json.load(open(replay))["replay"]
         want = rep["case"]
         match = [c for c in cases if c["pattern"] == want["pattern"] and c["T"] == want["T"] and c["end"] == want["end"]
-                 and c["drain"] == want.get("drain", 0)]
+                 and c["drain"] == want.get("drain", 0) and c["hs"] == want.get("hs", 0) and c["cc"] == want.get("cc", -1)]
         if not match:
             raise vlib.MachineryError("replay case not in the exported case set")
         match[0]["levels"] = [rep["level"]]
@@ -129,9 +214,7 @@ def run(tier, seed, replay):
             first = key not in seen
             seen.add(key)
             c["levels"] = list(LEVELS) if (first or c["id"] in pick or tier == "thorough") else ["func"]
-            if c["end"] == "drain":
-                # a Close that waits for a request handler only exists on real sessions
-                c["levels"] = [l for l in c["levels"] if l != "func"]
+            c["levels"] = [l for l in c["levels"] if l in levels_of(c)]
         run_cases = [c for c in cases if c["levels"]]
         v.cov["distinct_runs"] = len(seen)
         if tier == "thorough":
@@ -145,9 +228,10 @@ def run(tier, seed, replay):
     rows = []
     with open(obs_path, "w") as allobs:
         for sd in seeds:
-            part = os.path.join(out, "obs-%d.ndjson" % sd)
-            rc, gout, wall = vlib.go_test("mcp", "^TestVerif_C13$", ["mcp/c13_keepalive_test.go"],
-                                          env={"VERIF_IN": cases_path, "VERIF_OUT": part, "VERIF_SEED": sd}, timeout=1500)
+            part = os.path.join(out, "obs-%d-%d.ndjson" % (sd, os.getpid()))
+            rc, gout, stuck = run_harness(out, cases_path, part, sd, tier)
+            if stuck:
+                v.cov.setdefault("harness_restarts", []).extend(stuck)
             vlib.go_must_build(rc, gout, PID)
             if rc != 0:
                 if "panic:" in gout or "fatal error:" in gout:
@@ -178,26 +262,34 @@ def run(tier, seed, replay):
         by_level[r["level"]] = by_level.get(r["level"], 0) + 1
         if r["pings"]:
             distinct.add((r["level"], "".join(p["o"] for p in r["pings"]), r["T"], (r["end"] + str(r["drain"])) if r["closed"] < 0 else "-",
-                          len(r["pattern"]) if r["closed"] < 0 else 0))
+                          len(r["pattern"]) if r["closed"] < 0 else 0, r["hs"], r["cc"]))
     v.cov["scenarios_by_level"] = by_level
     v.cov["distinct_nontrivial"] = len(distinct)
     v.cov["closed_by_keepalive"] = sum(1 for r in rows if r["closed"] >= 0)
     v.cov["stopped_on_method_not_found"] = sum(1 for r in rows if any(p["o"] == "m" for p in r["pings"]))
     v.cov["owner_closed_with_ping_in_flight"] = sum(1 for r in rows if any(p["o"] == "u" for p in r["pings"]))
     v.cov["owner_closed_while_handler_running"] = sum(1 for r in rows if r["released"] >= 0)
+    v.cov["pinged_before_handshake"] = sum(1 for r in rows if r["hs"] != 0 and any(r["hsAt"] < 0 or p["at"] < r["hsAt"] for p in r["pings"]))
+    v.cov["closed_before_handshake"] = sum(1 for r in rows if r["hs"] != 0 and r["closed"] >= 0 and r["hsAt"] < 0)
+    v.cov["pinged_after_connect_context_cancelled"] = sum(1 for r in rows if r["ccAt"] >= 0 and any(p["at"] > r["ccAt"] for p in r["pings"]))
+    v.cov["closed_after_connect_context_cancelled"] = sum(1 for r in rows if 0 <= r["ccAt"] < r["closed"])
+    v.cov["quiet_period_cut_by_watchdog"] = sum(1 for r in rows if r["quietCut"])
     v.cov["rule"] = ("cases = every terminal behaviour of KeepAlive.tla (all outcome scripts over {a,t,m,c} of length <= 6 x thresholds "
-                     "{0,1,2,3} x owner closes idle / with a ping in flight / while a request handler keeps Close waiting for 1 or 2 intervals (session levels only)), each run at the function level; session levels (server, client) run every "
+                     "{0,1,2,3} x owner closes idle / with a ping in flight / while a request handler keeps Close waiting for 1 or 2 intervals (session levels only); "
+                     "scripts of length <= 4 also x peer completes the handshake after tick 1..4 or never (server sessions) + context given to Connect cancelled "
+                     "after tick 0..4 (server and client sessions)), each run at the function level where it exists there; session levels (server, client) run every "
                      "distinct run (consumed script prefix, threshold, closing mode) plus a seeded sample (quick) or every case (thorough, "
-                     "3 concretisation seeds); distinct = (level, outcomes actually consumed, threshold, closing mode); non-trivial = at least one ping")
+                     "3 concretisation seeds); distinct = (level, outcomes actually consumed, threshold, closing mode, handshake slot, context slot); non-trivial = at least one ping")
     v.cov["exhaustive"] = not replay
     for r in rows[:: max(1, len(rows) // 5)][:5]:
-        v.sample({k: r[k] for k in ("level", "pattern", "T", "end", "drain", "I", "pings", "attempts", "closed", "userClose", "kaEarly", "kaAlive", "left", "exit")})
+        v.sample({k: r[k] for k in ("level", "pattern", "T", "end", "drain", "hs", "cc", "hsAt", "ccAt", "I", "pings", "attempts", "closed", "userClose", "kaEarly", "kaAlive", "left", "exit")})
     vio = []
     for f in fails:
         e = rows[f["line"] - 1]
         if f["monfail"] == "drift":
-            v.drift.append("%s pattern=%s T=%d end=%s I=%dus: observed pings/closing differ from KeepAlive.tla (%s, pings at %s, exp %s)" % (
-                e["level"], "".join(e["pattern"]) or "-", e["T"], e["end"], e["I"], got_of(e), [p["at"] for p in e["pings"]], e["exp"]))
+            v.drift.append("%s pattern=%s T=%d end=%s%s I=%dus: observed pings/closing differ from KeepAlive.tla (%s, pings at %s, handshake %d, context %d, exp %s)" % (
+                e["level"], "".join(e["pattern"]) or "-", e["T"], e["end"], env_of(e), e["I"], got_of(e), [p["at"] for p in e["pings"]],
+                e["hsAt"], e["ccAt"], e["exp"]))
         else:
             vio.append((len(e["pings"]), sig_of(f["monfail"], e), f["monfail"], e))
     vio.sort(key=lambda x: (x[0], x[1]))
@@ -209,9 +301,11 @@ def run(tier, seed, replay):
         seen_sig.add(sig)
         if len(seen_sig) > 12 and sig not in v.known:
             continue
-        case = {"pattern": e["pattern"], "T": e["T"], "end": e["end"], "drain": e["drain"]}
-        v.violation(sig, "real keep-alive run violates %s: level=%s script=%s threshold=%d interval=%dus: %s, pings %s, owner close %s, left=%d exit=%s" % (
-            inv, e["level"], "".join(e["pattern"]) or "-", e["T"], e["I"], got_of(e),
+        case = {"pattern": e["pattern"], "T": e["T"], "end": e["end"], "drain": e["drain"], "hs": e["hs"], "cc": e["cc"]}
+        v.violation(sig, "real keep-alive run violates %s: level=%s script=%s threshold=%d interval=%dus, peer completes the handshake: %s, Connect context %s: %s, pings %s, owner close %s, left=%d exit=%s" % (
+            inv, e["level"], "".join(e["pattern"]) or "-", e["T"], e["I"],
+            "%dus" % e["hsAt"] if e["hsAt"] >= 0 else ("never" if e["hs"] < 0 else "not while the session lasted (due after tick %d)" % e["hs"]),
+            "cancelled at %dus" % e["ccAt"] if e["ccAt"] >= 0 else "kept alive", got_of(e),
             [(p["at"], p["o"]) for p in e["pings"]], "%s (ping attempts %s, keep-alive loops alive after Close began %d / settled %d)" % (
                 e["userClose"], e["attempts"], e["kaEarly"], e["kaAlive"]), e["left"], e["exit"][:80]),
             {"case": case, "level": e["level"], "seed": e["seed"], "observation": e})
